@@ -248,7 +248,11 @@ def extract_iter(
             items = []  # same as PRUNE
 
         yield frame
-        if items is None:
+        if items is None or (len(items) == 1 and items[0] is next_inner):
+            # Nothing to change. (A sequence that ends with next_inner
+            # inserts its other items before the rest; with no other items,
+            # as when the hook just returns next_inner, there is nothing to
+            # insert, and the rest must be left exactly as it is.)
             continue
 
         # We're replacing or augmenting the rest of the stack trace (at
